@@ -180,13 +180,26 @@ void vz_fail(const char *prop, const char *tag, const char *fmt, ...)
 	if (!vz_enabled(prop)) return;
 	char msg[1024];
 	va_list ap; va_start(ap, fmt); vsnprintf(msg, sizeof msg, fmt, ap); va_end(ap);
+	vz_scratch_cleanup();
 	emit("viol", prop, tag, msg);
 	_exit(3);
 }
-void vz_inconclusive(const char *why) { emit("inc", vz_prop, "inconclusive", why); _exit(4); }
-void vz_finish(void) { emit("ok", vz_prop, "-", ""); _exit(0); }
+void vz_inconclusive(const char *why) { vz_scratch_cleanup(); emit("inc", vz_prop, "inconclusive", why); _exit(4); }
+void vz_finish(void) { vz_scratch_cleanup(); emit("ok", vz_prop, "-", ""); _exit(0); }
 
 uint8_t *vz_gen2_buf; size_t vz_gen2_len;   /* optional second stream (schedule) filled by target_gen */
+
+/* ------------------------------------------------------------------ scratch directory (removed by the case, or by the batch worker if the case died) */
+#include <ftw.h>
+static char scratch_path[128];
+const char *vz_scratch_dir(void)
+{
+	if (!scratch_path[0]) { snprintf(scratch_path, sizeof scratch_path, "/tmp/vfz-scratch.%d", (int)getpid()); mkdir(scratch_path, 0700); }
+	return scratch_path;
+}
+static int rm_cb(const char *p, const struct stat *st, int flag, struct FTW *f) { (void)st; (void)flag; (void)f; return remove(p); }
+static void scratch_remove(const char *p) { nftw(p, rm_cb, 16, FTW_DEPTH | FTW_PHYS); }
+void vz_scratch_cleanup(void) { if (scratch_path[0]) { scratch_remove(scratch_path); scratch_path[0] = 0; } }
 
 /* ------------------------------------------------------------------ case files */
 static int hexv(int c) { return c <= '9' ? c - '0' : (c | 32) - 'a' + 10; }
@@ -303,6 +316,7 @@ static int batch(int argc, char **argv)
 		res[rl] = 0; close(pfd[0]);
 		int st; while (waitpid(pid, &st, 0) < 0 && errno == EINTR) ;
 		kill(-pid, SIGKILL);   /* stray helpers of the case (children, threads are gone with it) */
+		{ char sp[128]; snprintf(sp, sizeof sp, "/tmp/vfz-scratch.%d", (int)pid); struct stat sb; if (!stat(sp, &sb)) scratch_remove(sp); }
 		char *rp = strstr(res, "RES v=");
 		const char *kind = NULL; char tag[128] = "-";
 		unsigned long long lab = 0, hv = 0; int nt = 0;
